@@ -75,6 +75,37 @@ func c19Seg(seed uint64, pos, n uint64) []byte {
 
 type c19Read struct{ Pos, N uint64 }
 
+// c19RdMode: how the replaced reader behaves as an io.Reader.  The zero value fills every buffer
+// completely (like the operating system's reader).  The other modes exercise the io.Reader
+// CONTRACT: a Read may return fewer bytes than asked for, may return n > 0 together with io.EOF,
+// and may fail after some bytes — the code under test must fill its whole buffer from the stream
+// whatever the chunking (io.ReadFull / rand.Read do) and must return the error.
+type c19RdMode struct {
+	Chunk    int    `json:"chunk,omitempty"`    // > 0: at most this many bytes per Read
+	RandSeed uint64 `json:"randSeed,omitempty"` // != 0: a random number (1..len) of bytes per Read
+	FullEOF  bool   `json:"fullEOF,omitempty"`  // every Read fills the buffer and returns io.EOF with it
+	Limit    int64  `json:"limit,omitempty"`    // with HasLimit: number of bytes the stream delivers
+	HasLimit bool   `json:"hasLimit,omitempty"` // the stream delivers exactly Limit bytes, then fails
+	ErrWithN bool   `json:"errWithN,omitempty"` // the failing Read returns the last bytes TOGETHER with the error
+}
+
+func (m c19RdMode) chunked() bool { return m.Chunk > 0 || m.RandSeed != 0 }
+func (m c19RdMode) name() string {
+	switch {
+	case m.HasLimit:
+		return "error-after-k"
+	case m.Chunk > 0:
+		return fmt.Sprintf("chunk-%d", m.Chunk)
+	case m.RandSeed != 0:
+		return "chunk-random"
+	case m.FullEOF:
+		return "n-with-EOF"
+	}
+	return "full"
+}
+
+var errC19Reader = fmt.Errorf("c19: entropy source failed")
+
 // c19Reader is what crypto/rand.Reader is replaced by.
 type c19Reader struct {
 	mu    sync.Mutex
@@ -82,24 +113,68 @@ type c19Reader struct {
 	pos   uint64
 	reads []c19Read
 	total uint64 // over all histories
+	mode  c19RdMode
+	rnd   *vf.Rand
+	errs  int // Reads that returned an error (other than the io.EOF of FullEOF)
+	calls int
 }
 
 func (r *c19Reader) Read(p []byte) (int, error) {
 	r.mu.Lock()
 	defer r.mu.Unlock()
-	copy(p, c19Seg(r.seed, r.pos, uint64(len(p))))
-	if len(p) > 0 {
-		r.reads = append(r.reads, c19Read{r.pos, uint64(len(p))})
+	r.calls++
+	n := uint64(len(p))
+	if r.mode.Chunk > 0 && n > uint64(r.mode.Chunk) {
+		n = uint64(r.mode.Chunk)
 	}
-	r.pos += uint64(len(p))
-	r.total += uint64(len(p))
-	return len(p), nil
+	if r.rnd != nil && n > 1 {
+		n = 1 + uint64(r.rnd.Intn(int(n)))
+	}
+	var err error
+	if r.mode.HasLimit {
+		rem := uint64(0)
+		if uint64(r.mode.Limit) > r.pos {
+			rem = uint64(r.mode.Limit) - r.pos
+		}
+		if rem == 0 && len(p) > 0 {
+			r.errs++
+			return 0, errC19Reader
+		}
+		if n > rem {
+			n = rem
+			if r.mode.ErrWithN {
+				r.errs++
+				err = errC19Reader
+			}
+		}
+	}
+	copy(p, c19Seg(r.seed, r.pos, n))
+	if n > 0 {
+		r.reads = append(r.reads, c19Read{r.pos, n})
+	}
+	r.pos += n
+	r.total += n
+	if err == nil && r.mode.FullEOF && n == uint64(len(p)) {
+		err = io.EOF
+	}
+	return int(n), err
 }
 
-func (r *c19Reader) reset(seed uint64) {
+func (r *c19Reader) reset(seed uint64) { r.resetMode(seed, c19RdMode{}) }
+
+func (r *c19Reader) resetMode(seed uint64, m c19RdMode) {
 	r.mu.Lock()
-	r.seed, r.pos, r.reads = seed, 0, nil
+	r.seed, r.pos, r.reads, r.mode, r.errs, r.calls, r.rnd = seed, 0, nil, m, 0, 0, nil
+	if m.RandSeed != 0 {
+		r.rnd = vf.NewRand(m.RandSeed)
+	}
 	r.mu.Unlock()
+}
+
+func (r *c19Reader) errCount() int {
+	r.mu.Lock()
+	defer r.mu.Unlock()
+	return r.errs
 }
 
 func (r *c19Reader) state() (uint64, int) {
@@ -139,8 +214,9 @@ type c19Op struct {
 }
 
 type c19Case struct {
-	Seed uint64  `json:"seed"`
-	Ops  []c19Op `json:"ops"`
+	Seed uint64    `json:"seed"`
+	Rd   c19RdMode `json:"reader"`
+	Ops  []c19Op   `json:"ops"`
 }
 
 var c19Encs = []string{"A128CBC-HS256", "A192CBC-HS384", "A256CBC-HS512", "A128GCM", "A192GCM", "A256GCM"}
@@ -344,6 +420,7 @@ type c19Obs struct {
 	SkipOK bool      `json:"skipOK"` // an algorithm under repair failed in an unmodelled way
 	// the randomness-related members (iv, tag, p2s, p2c) of the CALLER's header object, encoded,
 	// before and after a jwe-level call
+	RdErrs    int    `json:"rdErrs,omitempty"` // Reads that failed during this op
 	HdrBefore string `json:"hdrBefore,omitempty"`
 	HdrAfter  string `json:"hdrAfter,omitempty"`
 }
@@ -359,8 +436,8 @@ type c19Msg struct {
 }
 
 type c19Impl struct {
-	hdrs     map[int]*jwe.Header           // shared caller headers by slot
-	kws      map[int]keymanage.KeyWrapper  // shared caller key wrappers by slot
+	hdrs     map[int]*jwe.Header          // shared caller headers by slot
+	kws      map[int]keymanage.KeyWrapper // shared caller key wrappers by slot
 	insts    []enc.Algorithm
 	instEnc  []string
 	msgs     []*c19Msg
@@ -565,6 +642,8 @@ var c19Plain = []byte("C19 plaintext: the quick brown fox")
 
 func (im *c19Impl) exec(op c19Op) (o c19Obs) {
 	_, r0 := c19Rd.state()
+	e0 := c19Rd.errCount()
+	defer func() { o.RdErrs = c19Rd.errCount() - e0 }()
 	var err error
 	var items []c19Item
 	panicked, what := vf.Recover(func() {
@@ -1161,7 +1240,22 @@ func c19RunModel(d *vf.Driver, cs c19Case) ([]c19ModelStep, []c19ModelDraw, erro
 		ops[i] = c19OpWire(op)
 	}
 	q := 0
-	res, err := d.Call("c19.hist", []vf.Wire{vf.Arr(ops...)}, c19Oracle(cs.Seed, &q))
+	oracle := c19Oracle(cs.Seed, &q)
+	if cs.Rd.HasLimit {
+		// a stream of exactly Limit bytes: the draw that does not fit fails and exhausts the stream
+		failed := false
+		inner := oracle
+		oracle = func(name string, args []vf.Wire) vf.Wire {
+			if name == "rand" && len(args) == 2 {
+				if failed || args[0].AsInt()+args[1].AsInt() > cs.Rd.Limit {
+					failed = true
+					return vf.None()
+				}
+			}
+			return inner(name, args)
+		}
+	}
+	res, err := d.Call("c19.hist", []vf.Wire{vf.Arr(ops...)}, oracle)
 	if err != nil {
 		return nil, nil, err
 	}
@@ -1212,7 +1306,7 @@ type c19ImplRun struct {
 }
 
 func c19RunImpl(cs c19Case) c19ImplRun {
-	c19Rd.reset(cs.Seed)
+	c19Rd.resetMode(cs.Seed, cs.Rd)
 	im := &c19Impl{}
 	run := c19ImplRun{cs: cs}
 	for _, op := range cs.Ops {
@@ -1286,10 +1380,11 @@ func c19Predicate(c *vf.Ctx, run c19ImplRun) {
 	}
 	var msgs []*msg
 	claimed := map[uint64]int{}
+	var claimedIv [][2]uint64 // claimed stretches of the stream (short-read modes)
 	// values used under one key across the whole history (shared caller objects make calls meet)
-	kwIVSeen := map[string]map[string]int{} // key-wrap key -> iv -> op
-	saltSeen := map[string]int{}            // drawn p2s -> op
-	cekSeen := map[string]int{}             // generated CEK -> op
+	kwIVSeen := map[string]map[string]int{}      // key-wrap key -> iv -> op
+	saltSeen := map[string]int{}                 // drawn p2s -> op
+	cekSeen := map[string]int{}                  // generated CEK -> op
 	contentIVSeen := map[string]map[string]int{} // content key -> content IV -> op
 	contentIV := func(i int, key, iv []byte) {
 		if key == nil || iv == nil {
@@ -1314,13 +1409,37 @@ func c19Predicate(c *vf.Ctx, run c19ImplRun) {
 				fmt.Sprint(len(val)), fmt.Sprint(wantLen))
 			return false
 		}
-		for _, rd := range o.Reads {
-			if _, used := claimed[rd.Pos]; used {
-				continue
+		if cs.Rd.chunked() {
+			// short reads: the value must be, octet for octet, an unclaimed stretch of the stream consumed
+			// during this operation (it starts where one of the operation's reads starts)
+			if len(o.Reads) > 0 {
+				end := o.Reads[len(o.Reads)-1].Pos + o.Reads[len(o.Reads)-1].N
+				for _, rd := range o.Reads {
+					p, n := rd.Pos, uint64(len(val))
+					if p+n > end || !bytes.Equal(c19Seg(cs.Seed, p, n), val) {
+						continue
+					}
+					free := true
+					for _, iv := range claimedIv {
+						if p < iv[1] && iv[0] < p+n {
+							free = false
+						}
+					}
+					if free {
+						claimedIv = append(claimedIv, [2]uint64{p, p + n})
+						return true
+					}
+				}
 			}
-			if rd.N == uint64(len(val)) && bytes.Equal(c19Seg(cs.Seed, rd.Pos, rd.N), val) {
-				claimed[rd.Pos] = i
-				return true
+		} else {
+			for _, rd := range o.Reads {
+				if _, used := claimed[rd.Pos]; used {
+					continue
+				}
+				if rd.N == uint64(len(val)) && bytes.Equal(c19Seg(cs.Seed, rd.Pos, rd.N), val) {
+					claimed[rd.Pos] = i
+					return true
+				}
 			}
 		}
 		c19Fail(c, "property", "c19-not-fresh-"+what, what+" is not a segment of the random stream drawn during this operation",
@@ -1340,6 +1459,12 @@ func c19Predicate(c *vf.Ctx, run c19ImplRun) {
 		if o.HdrBefore != o.HdrAfter {
 			c19Fail(c, "property", "c19-caller-header-modified", "the call changed iv/tag/p2s/p2c of the caller's *jwe.Header",
 				cs, i, o.HdrAfter, o.HdrBefore)
+		}
+		// an error of the entropy source is returned to the caller: no value is issued by a call
+		// during which a Read failed
+		if o.RdErrs > 0 && o.Tag != "err" {
+			c19Fail(c, "property", "c19-reader-error-swallowed", "a Read of the entropy source failed during this call, but the call did not return an error",
+				cs, i, o.Tag+" "+o.What, "err")
 		}
 		if o.Tag != "ok" {
 			continue
@@ -1511,6 +1636,7 @@ func c19Compare(c *vf.Ctx, run c19ImplRun, steps []c19ModelStep, log []c19ModelD
 	// message ids: the model numbers successful creations; so does the implementation
 	var allReads []c19Read
 	prevNLog := 0
+	exhausted := false
 	msgCEK := map[int64][]byte{}
 	for i := range cs.Ops {
 		o, m := run.obs[i], steps[i]
@@ -1525,41 +1651,62 @@ func c19Compare(c *vf.Ctx, run c19ImplRun, steps []c19ModelStep, log []c19ModelD
 				"impl "+o.Tag+" "+o.What, "model "+m.Tag+" "+m.Cls)
 			return
 		}
-		// the draws of THIS call, one by one: a skipped, added or resized draw shows up here, at the
-		// call that made it (also on error paths, where bytes may have been consumed already)
-		if m.NLog < prevNLog || m.NLog > len(log) {
-			c19Fail(c, "correspondence", "c19-model", "model log count out of range", cs, i, fmt.Sprint(m.NLog), fmt.Sprint(len(log)))
-			return
+		if o.RdErrs > 0 {
+			exhausted = true
+			c.Count("reader-error:call-returned-error:" + cs.Ops[i].T)
 		}
-		md := log[prevNLog:m.NLog]
-		prevNLog = m.NLog
-		same := len(md) == len(o.Reads)
-		var drawn uint64
-		for k := 0; same && k < len(md); k++ {
-			same = md[k].Pos == o.Reads[k].Pos && uint64(len(md[k].Bytes)) == o.Reads[k].N
-		}
-		for _, rd := range o.Reads {
-			drawn += rd.N
-		}
-		if !same {
-			var ms []string
-			for _, x := range md {
-				ms = append(ms, fmt.Sprintf("%s[%d,+%d)", x.Kind, x.Pos, len(x.Bytes)))
+		// once the stream has ended inside a call (or before), positions are no longer comparable (the
+		// failing Read consumed the rest of the stream); outcome classes and values still are
+		if !exhausted {
+			// the draws of THIS call, one by one: a skipped, added or resized draw shows up here, at the
+			// call that made it (also on error paths, where bytes may have been consumed already)
+			if m.NLog < prevNLog || m.NLog > len(log) {
+				c19Fail(c, "correspondence", "c19-model", "model log count out of range", cs, i, fmt.Sprint(m.NLog), fmt.Sprint(len(log)))
+				return
 			}
-			c19Fail(c, "correspondence", "c19-draws-per-call-"+cs.Ops[i].T, "the draws made by this call differ from the model's", cs, i,
-				fmt.Sprintf("impl reads %v", o.Reads), fmt.Sprintf("model draws %v", ms))
-			return
+			md := log[prevNLog:m.NLog]
+			prevNLog = m.NLog
+			same := len(md) == len(o.Reads)
+			var drawn uint64
+			for _, rd := range o.Reads {
+				drawn += rd.N
+			}
+			if cs.Rd.chunked() {
+				// short reads: one draw = several consecutive reads; the call must consume exactly the
+				// stretch of the stream the model's draws cover
+				var want uint64
+				for _, x := range md {
+					want += uint64(len(x.Bytes))
+				}
+				same = want == drawn && (len(md) == 0 || (len(o.Reads) > 0 && md[0].Pos == o.Reads[0].Pos))
+				for k := 1; same && k < len(o.Reads); k++ {
+					same = o.Reads[k-1].Pos+o.Reads[k-1].N == o.Reads[k].Pos
+				}
+			} else {
+				for k := 0; same && k < len(md); k++ {
+					same = md[k].Pos == o.Reads[k].Pos && uint64(len(md[k].Bytes)) == o.Reads[k].N
+				}
+			}
+			if !same {
+				var ms []string
+				for _, x := range md {
+					ms = append(ms, fmt.Sprintf("%s[%d,+%d)", x.Kind, x.Pos, len(x.Bytes)))
+				}
+				c19Fail(c, "correspondence", "c19-draws-per-call-"+cs.Ops[i].T, "the draws made by this call differ from the model's", cs, i,
+					fmt.Sprintf("impl reads %v", o.Reads), fmt.Sprintf("model draws %v", ms))
+				return
+			}
+			if o.Pos != m.Pos {
+				c19Fail(c, "correspondence", "c19-consumed-"+cs.Ops[i].T, "number of random bytes consumed differs", cs, i,
+					fmt.Sprintf("impl pos=%d reads=%v", o.Pos, o.Reads), fmt.Sprintf("model pos=%d", m.Pos))
+				return
+			}
+			dn := cs.Ops[i].T
+			if cs.Ops[i].KW != "" {
+				dn += "/" + cs.Ops[i].KW
+			}
+			c.Count(fmt.Sprintf("bytes-drawn-per-call:%s:%s=%d", dn, o.Tag, drawn))
 		}
-		if o.Pos != m.Pos {
-			c19Fail(c, "correspondence", "c19-consumed-"+cs.Ops[i].T, "number of random bytes consumed differs", cs, i,
-				fmt.Sprintf("impl pos=%d reads=%v", o.Pos, o.Reads), fmt.Sprintf("model pos=%d", m.Pos))
-			return
-		}
-		dn := cs.Ops[i].T
-		if cs.Ops[i].KW != "" {
-			dn += "/" + cs.Ops[i].KW
-		}
-		c.Count(fmt.Sprintf("bytes-drawn-per-call:%s:%s=%d", dn, o.Tag, drawn))
 		if m.Tag != "ok" {
 			if m.Tag == "err" {
 				c.Count("err:" + m.Cls)
@@ -1626,6 +1773,9 @@ func c19Compare(c *vf.Ctx, run c19ImplRun, steps []c19ModelStep, log []c19ModelD
 				c19CheckContent(c, cs, i, run, w.B, mi["iv"].B)
 			}
 		}
+	}
+	if cs.Rd.chunked() || cs.Rd.HasLimit {
+		return // compared call by call above
 	}
 	// the model's log = the reads the implementation made, segment by segment
 	if len(log) != len(allReads) {
